@@ -3,6 +3,7 @@ use crate::core::PropDef;
 
 pub mod c01;
 pub mod c02;
+pub mod c04;
 pub mod c05;
 pub mod c06;
 pub mod c07;
@@ -12,5 +13,5 @@ pub mod c13;
 pub mod c19;
 
 pub fn all() -> Vec<PropDef> {
-    vec![c01::def(), c02::def(), c05::def(), c06::def(), c07::def(), c08::def(), c12::def(), c13::def(), c19::def()]
+    vec![c01::def(), c02::def(), c04::def(), c05::def(), c06::def(), c07::def(), c08::def(), c12::def(), c13::def(), c19::def()]
 }
